@@ -230,49 +230,124 @@ def connLookup (conn : List (Nat × List Nat)) (i : Nat) : Except Err (List Nat)
   | some l => .ok l
   | none => .error .keyError
 
-/-- `search_direction.dot(vertices[c] - vertices[b])` -/
+/-- `search_direction.dot(vertices[c])` : the ONE computed projection of vertex `c`
+(IndexError outside the array) -/
+def vertexProj (d : V3 α) (vs : Array (V3 α)) (c : Nat) : Except Err α :=
+  match vs[c]? with
+  | some v => .ok (V3.dot d v)
+  | none => .error .indexOOB
+
+/-- loop state of `hill_climb_mesh_extreme` (after repair e900ae9): `best_idx`,
+`best_projection`, `not converged`, and — instrumentation only, like the branch ids — the number
+of accepted moves so far -/
+structure ClimbSt (α : Type) where
+  best : Nat
+  bestProj : α
+  moved : Bool
+  moves : Nat
+  deriving Repr, Inhabited
+
+/-- one `for connected_idx in …:` loop of `hill_climb_mesh_extreme` (the shortcut loop and the
+body of the `while` loop are the same code): the candidate list is fixed when the loop starts,
+`best_idx`/`best_projection` change while it runs. A candidate is accepted when
+`projection - best_projection > PROJECTION_LENGTH_EPSILON` (same order of operations as the
+Python: dot of `d` with the vertex, subtraction of `best_projection`, comparison). -/
+def climbFold (τ : α) (d : V3 α) (vs : Array (V3 α)) :
+    List Nat → ClimbSt α → Except Err (ClimbSt α)
+  | [], st => .ok st
+  | c :: cs, st =>
+    match vertexProj d vs c with
+    | .error e => .error e
+    | .ok p =>
+      if τ < p - st.bestProj then climbFold τ d vs cs ⟨c, p, true, st.moves + 1⟩
+      else climbFold τ d vs cs st
+
+/-- `while not converged:`; returns (final state, number of passes) -/
+def hillLoop (τ : α) (d : V3 α) (m : MeshData α) :
+    Nat → ClimbSt α → Nat → Except Err (ClimbSt α × Nat)
+  | 0, _, _ => .error .fuel
+  | fuel + 1, st, passes =>
+    match connLookup m.conn st.best with
+    | .error e => .error e
+    | .ok nbrs =>
+      match climbFold τ d m.verts nbrs { st with moved := false } with
+      | .error e => .error e
+      | .ok st' =>
+        if st'.moved then hillLoop τ d m fuel st' (passes + 1) else .ok (st', passes + 1)
+
+/-- `hill_climb_mesh_extreme` with threshold `τ` and explicit fuel for the `while` loop.
+Returns (best_idx, branch, accepted moves) with branch = 2·passes + (1 if the shortcut pass
+moved). -/
+def hillClimbF (τ : α) (d : V3 α) (start : Nat) (m : MeshData α) (fuel : Nat) :
+    Except Err (Nat × Nat × Nat) :=
+  match vertexProj d m.verts start with
+  | .error e => .error e
+  | .ok bp0 =>
+    match climbFold τ d m.verts m.shortcuts ⟨start, bp0, false, 0⟩ with
+    | .error e => .error e
+    | .ok st0 =>
+      match hillLoop τ d m fuel st0 0 with
+      | .error e => .error e
+      | .ok (st, passes) => .ok (st.best, 2 * passes + (if st0.moved then 1 else 0), st.moves)
+
+/-- `hill_climb_mesh_extreme` with threshold `τ`; fuel = number of vertices (never hit, in ANY
+arithmetic whose acceptance test is contained in a strict order: `hillClimbF_terminates_anyArith`).
+Returns (best_idx, branch). -/
+def hillClimbT (τ : α) (d : V3 α) (start : Nat) (m : MeshData α) : Except Err (Nat × Nat) :=
+  match hillClimbF τ d start m m.verts.size with
+  | .error e => .error e
+  | .ok r => .ok (r.1, r.2.1)
+
+/-- `hill_climb_mesh_extreme` with the library's `PROJECTION_LENGTH_EPSILON` -/
+def hillClimb (d : V3 α) (start : Nat) (m : MeshData α) : Except Err (Nat × Nat) :=
+  hillClimbT (Gen.mesh__PROJECTION_LENGTH_EPSILON : α) d start m
+
+/-! #### the climb before repair e900ae9 (kept: the defect is documented by theorems on it) -/
+
+/-- `search_direction.dot(vertices[c] - vertices[b])` — recomputed for every pair -/
 def projLen (d : V3 α) (vs : Array (V3 α)) (c b : Nat) : Except Err α :=
   match vs[c]?, vs[b]? with
   | some vc, some vb => .ok (V3.dot d (vc - vb))
   | _, _ => .error .indexOOB
 
-/-- one `for connected_idx in …:` loop of `hill_climb_mesh_extreme` (the shortcut loop and the
-body of the `while` loop are the same code): the candidate list is fixed when the loop starts,
-`best_idx` changes while it runs; state = (best_idx, moved) -/
-def climbFold (τ : α) (d : V3 α) (vs : Array (V3 α)) :
+/-- the `for` loop before the repair: a candidate is accepted when the projection of the
+DIFFERENCE `vertices[c] - vertices[best]` exceeds the threshold; state = (best_idx, moved) -/
+def climbFold_asIs_before_fix (τ : α) (d : V3 α) (vs : Array (V3 α)) :
     List Nat → (Nat × Bool) → Except Err (Nat × Bool)
   | [], st => .ok st
   | c :: cs, st =>
     match projLen d vs c st.1 with
     | .error e => .error e
-    | .ok pl => if τ < pl then climbFold τ d vs cs (c, true) else climbFold τ d vs cs st
+    | .ok pl =>
+      if τ < pl then climbFold_asIs_before_fix τ d vs cs (c, true)
+      else climbFold_asIs_before_fix τ d vs cs st
 
-/-- `while not converged:`; returns (best_idx, number of passes) -/
-def hillLoop (τ : α) (d : V3 α) (m : MeshData α) : Nat → Nat → Nat → Except Err (Nat × Nat)
+def hillLoop_asIs_before_fix (τ : α) (d : V3 α) (m : MeshData α) :
+    Nat → Nat → Nat → Except Err (Nat × Nat)
   | 0, _, _ => .error .fuel
   | fuel + 1, best, passes =>
     match connLookup m.conn best with
     | .error e => .error e
     | .ok nbrs =>
-      match climbFold τ d m.verts nbrs (best, false) with
+      match climbFold_asIs_before_fix τ d m.verts nbrs (best, false) with
       | .error e => .error e
       | .ok (best', moved) =>
-        if moved then hillLoop τ d m fuel best' (passes + 1) else .ok (best', passes + 1)
+        if moved then hillLoop_asIs_before_fix τ d m fuel best' (passes + 1)
+        else .ok (best', passes + 1)
 
-/-- `hill_climb_mesh_extreme` with threshold `τ`; fuel = number of vertices (sufficiency is
-theorem `hillClimb_terminates`). Returns (best_idx, branch) with
-branch = 2·passes + (1 if the shortcut pass moved). -/
-def hillClimbT (τ : α) (d : V3 α) (start : Nat) (m : MeshData α) : Except Err (Nat × Nat) :=
-  match climbFold τ d m.verts m.shortcuts (start, false) with
+/-- `hill_climb_mesh_extreme` before the repair, explicit fuel; (best_idx, branch) -/
+def hillClimbF_asIs_before_fix (τ : α) (d : V3 α) (start : Nat) (m : MeshData α) (fuel : Nat) :
+    Except Err (Nat × Nat) :=
+  match climbFold_asIs_before_fix τ d m.verts m.shortcuts (start, false) with
   | .error e => .error e
   | .ok (b0, sc) =>
-    match hillLoop τ d m m.verts.size b0 0 with
+    match hillLoop_asIs_before_fix τ d m fuel b0 0 with
     | .error e => .error e
     | .ok (b, passes) => .ok (b, 2 * passes + (if sc then 1 else 0))
 
-/-- `hill_climb_mesh_extreme` with the library's `PROJECTION_LENGTH_EPSILON` -/
-def hillClimb (d : V3 α) (start : Nat) (m : MeshData α) : Except Err (Nat × Nat) :=
-  hillClimbT (Gen.mesh__PROJECTION_LENGTH_EPSILON : α) d start m
+def hillClimb_asIs_before_fix (d : V3 α) (start : Nat) (m : MeshData α) (fuel : Nat) :
+    Except Err (Nat × Nat) :=
+  hillClimbF_asIs_before_fix (Gen.mesh__PROJECTION_LENGTH_EPSILON : α) d start m fuel
 
 /-- `MeshHillClimbingSupportFunction.__call__` : (idx, support point, branch); the caller
 stores `idx` as the new `first_idx` -/
